@@ -118,6 +118,27 @@ def chain_cases(ctx, n):
     return out
 
 
+def identifier_cases(ctx):
+    """the statements of C16's positions stream (every spelling: case x quoting, 1-2 name parts, every syntactic position incl. quoted
+    aliases / CTE names / derived aliases used as qualifiers) under three dialects covering the quote styles; the cells of the listed
+    finding K-quoted-case@C16 are left out (C16 owns them)"""
+    from vlib import rewrite
+    from vlib.props import C16
+
+    out = []
+    known = C16.known_cells()
+    for dialect in ("ansi", "mysql", "tsql"):
+        for sp in C16.spellings(dialect):
+            for (pname, build, parts_matter) in C16.positions():
+                for n in ((1, 2) if parts_matter else (1,)):
+                    sql, _ = build(sp, n)
+                    c = {"sql": sql, "dialect": dialect}
+                    if C16.cell_key(c) in known or not rewrite.parses(sql, dialect):
+                        continue
+                    out.append({"sql": sql, "dialect": dialect, "metadata": None, "origin": "identifiers"})
+    return out
+
+
 def all_cases(ctx, n_generated):
     crafted = [{"sql": s, "dialect": d, "metadata": None, "origin": "crafted"} for d, s in CRAFTED]
-    return corpus_cases(ctx) + crafted + generated_cases(ctx, n_generated) + chain_cases(ctx, max(20, n_generated // 4))
+    return corpus_cases(ctx) + crafted + identifier_cases(ctx) + generated_cases(ctx, n_generated) + chain_cases(ctx, max(20, n_generated // 4))
